@@ -455,7 +455,11 @@ func (l *StatefulLexer) getPattern(candidate compiledRule) (*regexp.Regexp, erro
 
 // BackrefRegex returns a compiled regular expression with backreferences replaced by groups.
 func BackrefRegex(backrefCache *sync.Map, input string, groups []string) (*regexp.Regexp, error) {
-	key := input + "\000" + strings.Join(groups, "\000")
+	// Quote each part so that distinct (pattern, groups) never share a key, whatever bytes the groups contain.
+	key := strconv.Quote(input)
+	for _, group := range groups {
+		key += strconv.Quote(group)
+	}
 	if verifEnabled {
 		verifGate("backref.load", key)
 	}
